@@ -184,6 +184,19 @@ PREFIX struct AdfVolume * adfMount ( struct AdfDevice * const dev,
 
     vol = dev->volList[nPart];
     vol->dev = dev;
+
+    /* the block range comes from the partition table (or the device size): it has to be a
+       range of the device, or every size computed from it below is meaningless */
+    if ( vol->firstBlock < 0 ||
+         vol->lastBlock < vol->firstBlock + 3 ||
+         ( (uint64_t) vol->lastBlock + 1 ) * 512 > (uint64_t) dev->size ||
+         vol->rootBlock < 2 ||
+         vol->rootBlock > vol->lastBlock - vol->firstBlock )
+    {
+        (*adfEnv.eFct)("adfMount : invalid volume geometry");
+        return NULL;
+    }
+
     vol->mounted = TRUE;
 
 /*printf("first=%ld last=%ld root=%ld\n",vol->firstBlock,
